@@ -16,7 +16,7 @@ use serde_json::json;
 pub static SPEC: PropSpec = PropSpec {
     id: "C09",
     level: "exploration",
-    rule: "tests: (expression form x operand position x effect kind) with effect kinds {print tick, Ref bump, failing division / index / missing arm}; forms: 12 binary operators at int/bool/string, unary, named/closure/returned-function calls, constructor / tuple / array / struct-literal arguments, every builtin, if / match / while, let right-hand sides, discarded statements, method call forms (inherent, UFCS, trait static, dyn), projections; exhaustive over the assignment of effects to positions (3^p, p <= 3) and over the failing position; plus randomly generated effect-heavy programs and `go` programs explored over schedules (deterministic, 24 random fair, and DFS-enumerated up to the cap); non-trivial = expected trace orders >= 3 effects from different positions; distinct by source hash",
+    rule: "tests: (expression form x operand position x effect kind) with effect kinds {print tick, Ref bump, failing division / index / missing arm}; forms: 12 binary operators at int/bool/string, all nestings of two logical operators with explicit and with minimal parentheses, unary, named/closure/returned-function calls, constructor / tuple / array / struct-literal arguments, every builtin, if / match / while, let right-hand sides, discarded statements, method call forms (inherent, UFCS, trait static, dyn), projections; exhaustive over the assignment of effects to positions (3^p, p <= 3) and over the failing position; plus randomly generated effect-heavy programs and `go` programs explored over schedules (deterministic, 24 random fair, and DFS-enumerated up to the cap); non-trivial = expected trace orders >= 3 effects from different positions; distinct by source hash",
     eval_counter: "tests",
     assumptions: &[
         "schedules are those of gomini's cooperative scheduler with yield points at Ref helper calls, fmt prints and loop back-edges; preemption elsewhere and the real Go memory model are not exercised",
